@@ -1,6 +1,7 @@
 package main
 
 import (
+	"bufio"
 	"encoding/json"
 	"fmt"
 	"math/rand"
@@ -132,6 +133,59 @@ func hasStd(s WSetting) bool { return s.Window != 4096 }
 
 // ---------------------------------------------------------------------------
 
+// writerModels model-checks the design-level writer specifications: the
+// ideal Writer (contract closed under its environment) and the
+// implementation-shaped WriterMech for both compressor variants.
+func (c *Ctx) writerModels() error {
+	if err := c.ModelCheck("WriterModel", "MC_WriterModel.cfg", 5*time.Minute); err != nil {
+		return err
+	}
+	for _, cfg := range []string{"MC_WriterMech_dyn.cfg", "MC_WriterMech_huff.cfg"} {
+		if err := c.ModelCheck("WriterMech", cfg, 5*time.Minute); err != nil {
+			return err
+		}
+	}
+	return nil
+}
+
+// traceStats scans a writer trace for coverage facts recorded in the evidence.
+func (c *Ctx) traceStats(trace string) {
+	f, err := os.Open(trace)
+	if err != nil {
+		return
+	}
+	defer f.Close()
+	sc := bufio.NewScanner(f)
+	sc.Buffer(make([]byte, 1<<20), 1<<28)
+	maxd := map[int]int{}
+	window := 0
+	evs := map[string]int{}
+	for sc.Scan() {
+		var e struct {
+			Ev     string `json:"ev"`
+			Window int    `json:"window"`
+			Ref    struct {
+				Maxd int `json:"maxd"`
+			} `json:"ref"`
+		}
+		if json.Unmarshal(sc.Bytes(), &e) != nil {
+			continue
+		}
+		evs[e.Ev]++
+		if e.Ev == "Begin" {
+			window = e.Window
+		} else if e.Ref.Maxd > maxd[window] {
+			maxd[window] = e.Ref.Maxd
+		}
+	}
+	md := map[string]int{}
+	for w, d := range maxd {
+		md[fmt.Sprint(w)] = d
+	}
+	c.ev.Extra["max_distance_observed_by_window"] = md
+	c.ev.Extra["events_by_kind"] = evs
+}
+
 // writerRun executes writer cases on the standard library (R3) and on fastgo,
 // validates both traces against WriterContract and reports.
 func (c *Ctx) writerRun(name string, cases []*WCase, withStd bool) (int, error) {
@@ -214,6 +268,7 @@ func (c *Ctx) writerRun(name string, cases []*WCase, withStd bool) (int, error) 
 	if err != nil {
 		return 0, err
 	}
+	c.traceStats(trace)
 	c.ev.Traces += len(fg)
 	c.ev.Evaluations += len(fg)
 	c.logf("%s: %d cases executed (%.1fs), %d events validated (%.1fs), %d violating events", name, len(fg), t1.Sub(t0).Seconds(), nev, time.Since(t1).Seconds(), len(viols))
@@ -252,7 +307,7 @@ func checkC16(c *Ctx) (int, error) {
 		"histories are exhaustive up to the stated length over the abstract alphabet {Write(empty|small|large), Flush, Close, Reset}; payload bytes are seeded samples",
 		"the expected nil/non-nil answers are those of WriterContract, which is validated against compress/flate, compress/gzip and compress/zlib executing the same histories on every run",
 	}
-	if err := c.ModelCheck("WriterModel", "MC_WriterModel.cfg", 5*time.Minute); err != nil {
+	if err := c.writerModels(); err != nil {
 		return 0, err
 	}
 	maxLen, perHist := 4, 3
